@@ -47,6 +47,8 @@ struct TA { nop::Entry<std::int32_t, 1> a; nop::Entry<std::string, 2> b; NOP_TAB
 struct TB { nop::Entry<W<std::int32_t>, 1> a; nop::Entry<std::string, 2> b; NOP_TABLE_NS("cat.T", TB, a, b); };
 struct TC { nop::Entry<std::int32_t, 1> a; nop::Entry<std::string, 2> b; NOP_TABLE_NS("cat.Other", TC, a, b); };
 struct TD { nop::Entry<std::string, 1> a; nop::Entry<std::string, 2> b; NOP_TABLE_NS("cat.T", TD, a, b); };
+struct TE { nop::Entry<std::int32_t, 1, nop::DeletedEntry> a; nop::Entry<std::string, 2> b; NOP_TABLE_NS("cat.T", TE, a, b); };
+struct TF { nop::Entry<W<std::int32_t>, 1, nop::DeletedEntry> a; nop::Entry<std::string, 2> b; NOP_TABLE_NS("cat.T", TF, a, b); };
 }  // namespace cat
 using namespace cat;
 '''
@@ -123,8 +125,12 @@ def var(*es):
     return {'cpp': 'nop::Variant<%s>' % ', '.join(e['cpp'] for e in es), 'sig': ('VAR', tuple(e['sig'] for e in es)), 'integral': False}
 
 
-def table(name, hashname, entries):
-    return {'cpp': name, 'sig': ('TAB', hashname, tuple(sorted((i, e['sig']) for i, e in entries))), 'integral': False}
+def table(name, hashname, entries, deleted=()):
+    return {'cpp': name, 'sig': ('TAB', hashname, tuple(sorted((i, e['sig'], i not in deleted) for i, e in entries))), 'integral': False}
+
+
+def ent(e, i, active=True):
+    return {'cpp': 'nop::Entry<%s, %d%s>' % (e['cpp'], i, '' if active else ', nop::DeletedEntry'), 'sig': ('ENT', i, active, e['sig']), 'integral': False}
 
 
 def fn(ret, *args):
@@ -147,13 +153,15 @@ def catalogue():
          pair(i32, s), pair(s, s), pair(i32, i32), pair(s, i32), pair(wi, s),
          mapof('map', i32, s), mapof('unordered_map', i32, s), mapof('map', s, i32), mapof('map', wi, s),
          lb('LBc', u8, 8, 'std::uint8_t'), lb('LBc', i32, 8, 'std::uint16_t'), lb('LBa', i32, 8, 'std::size_t'), lb('LBc', s, 4, 'std::uint32_t'),
-         lb('LBc', i32, 3, 'int'),
+         lb('LBc', i32, 3, 'int'), lb('LBc', wi, 3, 'int'), lb('LBa', wi, 8, 'std::size_t'), lb('LBa', i32, 4, 'std::uint8_t'),
          wi, ws, wrap(vector(i32)), wb(i32, 4), wb(s, 2),
          struct('S1', i32, s), struct('S2', i32, s), struct('S3', s, i32), struct('S4', wi, s), struct('S5', vector(i32)),
          opt(i32), opt(wi), opt(s), res('Err', i32), res('Err', wi), res('Err2', i32), res('Err', s),
          var(i32, s), var(s, i32), var(wi, s),
          table('TA', 'cat.T', [(1, i32), (2, s)]), table('TB', 'cat.T', [(1, wi), (2, s)]), table('TC', 'cat.Other', [(1, i32), (2, s)]),
-         table('TD', 'cat.T', [(1, s), (2, s)]),
+         table('TD', 'cat.T', [(1, s), (2, s)]), table('TE', 'cat.T', [(1, i32), (2, s)], deleted=(1,)),
+         table('TF', 'cat.T', [(1, wi), (2, s)], deleted=(1,)),
+         ent(i32, 1), ent(wi, 1), ent(i32, 1, False), ent(wi, 1, False), ent(i32, 2), ent(s, 1),
          fn(i32, i32, s), fn(i32, wi, s), fn(None, vector(i32)), fn(None, array(i32, 3)), fn(i32, s, i32)]
     return c
 
@@ -216,8 +224,11 @@ def compat(a, b):
     if k == 'TAB':
         if a[1] != b[1]:
             return False
-        da, db_ = dict(a[2]), dict(b[2])
-        return all(compat(da[i], db_[i]) for i in set(da) & set(db_))
+        da, db_ = {x[0]: x for x in a[2]}, {x[0]: x for x in b[2]}
+        # an entry that is active on one side and deleted on the other is written by one definition and dropped by the other
+        return all(da[i][2] == db_[i][2] and (not da[i][2] or compat(da[i][1], db_[i][1])) for i in set(da) & set(db_))
+    if k == 'ENT':
+        return a[1] == b[1] and a[2] == b[2] and (not a[2] or compat(a[3], b[3]))
     if k == 'SIG':
         return compat(a[1], b[1]) and len(a[2]) == len(b[2]) and all(compat(p, q) for p, q in zip(a[2], b[2]))
     return False
